@@ -114,7 +114,24 @@ theorem io_capacities (maxlen tmin : Nat) :
   · intro m hm; have := Nat.le_max_left maxlen tmin; omega
   · intro h; have := Nat.le_max_right maxlen tmin; omega
 
-theorem io_untranslatable_none : (Gen.ioPrecedingLen_untranslatable || Gen.ioOccupiedLen_untranslatable || Gen.ioVacantLen_untranslatable ||
+/-- dropping a guard is `Buffer::skip(size())`: the window assertion (evaluated after `start += count`) is the model's fault condition,
+and an emptied window is reset to `0..0` (the extraction site exists only while that reset follows the assertion) -/
+theorem io_skip (d : Dict) (b : RBuf) (z : Nat) (hz : d.size b.slice = .ok z) :
+    dropGuard d b =
+      if Gen.cIoSkipAssert_cond (b.start + z) (b.start + b.occ.length) then
+        some (if (b.occ.drop z).isEmpty then { b with start := 0, occ := [] } else { b with start := b.start + z, occ := b.occ.drop z })
+      else none := by
+  simp only [dropGuard, hz, Gen.cIoSkipAssert_cond, decide_eq_true_eq, Nat.add_le_add_iff_left]
+/-- what `Buffer::advance` asserts after a read of `n` bytes holds for the `n` the model takes: at most the vacant room -/
+theorem io_advance (b : RBuf) (c : Nat) (rest : Bytes) (hw : b.start + b.occ.length ≤ b.cap) :
+    Gen.cIoAdvanceAssert_cond (b.start + b.occ.length + min (min c (Gen.ioVacantLen b.cap (b.start + b.occ.length))) rest.length) b.cap = true := by
+  unfold Gen.cIoAdvanceAssert_cond Gen.ioVacantLen
+  apply decide_eq_true
+  have h1 : min (min c (b.cap - (b.start + b.occ.length))) rest.length ≤ b.cap - (b.start + b.occ.length) :=
+    Nat.le_trans (Nat.min_le_left _ _) (Nat.min_le_right _ _)
+  omega
+
+theorem io_untranslatable_none : (Gen.cIoSkipAssert_untranslatable || Gen.cIoAdvanceAssert_untranslatable || Gen.ioPrecedingLen_untranslatable || Gen.ioOccupiedLen_untranslatable || Gen.ioVacantLen_untranslatable ||
     Gen.ioContiguousEnd_untranslatable || Gen.ioSendCap_untranslatable || Gen.ioRecvCap_untranslatable || Gen.aioSendCap_untranslatable ||
     Gen.aioRecvCap_untranslatable || Gen.cIoWriteLoop_untranslatable || Gen.cIoWriteZero_untranslatable || Gen.cIoPoisonZero_untranslatable ||
     Gen.cIoPoisonErr_untranslatable || Gen.cIoReadFull_untranslatable || Gen.cIoReadCompact_untranslatable || Gen.cIoRecvClosed_untranslatable ||
